@@ -65,7 +65,7 @@ impl<'a> PatGen<'a> {
     }
     fn atom(&mut self, depth: u32, lb: bool) -> (String, bool) {
         // returns (text, quantifiable)
-        let k = if depth == 0 { self.r.below(8) } else { self.r.below(20) };
+        let k = if depth == 0 { self.r.below(8) } else { self.r.below(19) };
         match k {
             0 | 1 | 2 => (self.r.pick(LITS).to_string(), true),
             3 => (".".to_string(), true),
@@ -135,7 +135,7 @@ impl<'a> PatGen<'a> {
                 let m = *self.r.pick(&["i", "-i", "m", "s", "i-s", "ms"]);
                 (format!("(?{}:{})", m, inner), true)
             }
-            18 => {
+            18 if self.r.chance(1, 3) => {
                 // a longer literal run (byte-sequence lowering, memmem prefilter)
                 let n = 2 + self.r.below(20);
                 let mut s = String::new();
@@ -148,7 +148,7 @@ impl<'a> PatGen<'a> {
         }
     }
     fn term(&mut self, depth: u32, lb: bool) -> String {
-        let n = self.r.below(4);
+        let n = if depth >= 2 { self.r.below(3) } else { self.r.below(4) };
         let mut s = String::new();
         for _ in 0..n {
             let (a, q) = self.atom(depth, lb);
@@ -160,7 +160,7 @@ impl<'a> PatGen<'a> {
         s
     }
     pub fn alt(&mut self, depth: u32, lb: bool) -> String {
-        let n = 1 + self.r.below(3);
+        let n = if self.r.chance(1, 2) { 1 } else { 1 + self.r.below(3) };
         let mut v = vec![];
         for _ in 0..n {
             v.push(self.term(depth, lb));
@@ -173,7 +173,7 @@ pub const FLAGSETS: &[&str] = &["", "", "i", "m", "s", "u", "iu", "ms", "v", "iv
 
 pub fn gen_pattern(r: &mut Rng) -> (String, String) {
     let f = *r.pick(FLAGSETS);
-    let depth = 1 + r.below(3) as u32;
+    let depth = if r.chance(1, 6) { 3 } else { 1 + r.below(2) as u32 };
     let mut g = PatGen { r, ngroups: 0, names: vec![], unicode: f.contains('u'), vmode: f.contains('v') };
     let p = g.alt(depth, false);
     (p, f.to_string())
